@@ -23,20 +23,16 @@ Proof.
         pose proof (digits_nonneg (tl (tl (tl s))) 0%Z ltac:(lia)) as N1. rewrite D1 in N1. cbn [fst] in N1.
         destruct (hd0 s1 =? 44)%N.
         -- destruct (digits (tl s1) (if (hd0 (tl s1) =? 125)%N then (-1)%Z else 0%Z)) as [mx1 s2].
-           destruct (adv SBrace s2 1) as [s3| |]; cbn [bind]; try discriminate.
-           destruct ((NREPS <? mn1)%Z || (NREPS <? mx1)%Z || ((0 <=? mx1)%Z && (mx1 <? mn1)%Z)) eqn:C; intro H; inversion H; subst. unfold wf_rep. lia.
-        -- destruct (adv SBrace s1 1) as [s3| |]; cbn [bind]; try discriminate.
-           destruct ((NREPS <? mn1)%Z || (NREPS <? mn1)%Z || ((0 <=? mn1)%Z && (mn1 <? mn1)%Z)) eqn:C; intro H; inversion H; subst. unfold wf_rep. lia.
+           match goal with |- (if ?c then _ else _) = _ -> _ => destruct c eqn:C end; intro H; inversion H; subst. unfold wf_rep. lia.
+        -- match goal with |- (if ?c then _ else _) = _ -> _ => destruct c eqn:C end; intro H; inversion H; subst. unfold wf_rep. lia.
       * intro H; inversion H; subst. unfold wf_rep. lia.
     + destruct (hd0 (tl s) =? 123)%N eqn:E3.
       * destruct (digits (tl (tl s)) 0) as [mn1 s1] eqn:D1.
         pose proof (digits_nonneg (tl (tl s)) 0%Z ltac:(lia)) as N1. rewrite D1 in N1. cbn [fst] in N1.
         destruct (hd0 s1 =? 44)%N.
         -- destruct (digits (tl s1) (if (hd0 (tl s1) =? 125)%N then (-1)%Z else 0%Z)) as [mx1 s2].
-           destruct (adv SBrace s2 1) as [s3| |]; cbn [bind]; try discriminate.
-           destruct ((NREPS <? mn1)%Z || (NREPS <? mx1)%Z || ((0 <=? mx1)%Z && (mx1 <? mn1)%Z)) eqn:C; intro H; inversion H; subst. unfold wf_rep. lia.
-        -- destruct (adv SBrace s1 1) as [s3| |]; cbn [bind]; try discriminate.
-           destruct ((NREPS <? mn1)%Z || (NREPS <? mn1)%Z || ((0 <=? mn1)%Z && (mn1 <? mn1)%Z)) eqn:C; intro H; inversion H; subst. unfold wf_rep. lia.
+           match goal with |- (if ?c then _ else _) = _ -> _ => destruct c eqn:C end; intro H; inversion H; subst. unfold wf_rep. lia.
+        -- match goal with |- (if ?c then _ else _) = _ -> _ => destruct c eqn:C end; intro H; inversion H; subst. unfold wf_rep. lia.
       * intro H; inversion H; subst. unfold wf_rep. subst mx0. destruct (hd0 s =? 42)%N; lia.
   - destruct (hd0 s =? 43)%N eqn:E2.
     + destruct (hd0 (tl s) =? 123)%N eqn:E3.
@@ -44,20 +40,16 @@ Proof.
         pose proof (digits_nonneg (tl (tl s)) 0%Z ltac:(lia)) as N1. rewrite D1 in N1. cbn [fst] in N1.
         destruct (hd0 s1 =? 44)%N.
         -- destruct (digits (tl s1) (if (hd0 (tl s1) =? 125)%N then (-1)%Z else 0%Z)) as [mx1 s2].
-           destruct (adv SBrace s2 1) as [s3| |]; cbn [bind]; try discriminate.
-           destruct ((NREPS <? mn1)%Z || (NREPS <? mx1)%Z || ((0 <=? mx1)%Z && (mx1 <? mn1)%Z)) eqn:C; intro H; inversion H; subst. unfold wf_rep. lia.
-        -- destruct (adv SBrace s1 1) as [s3| |]; cbn [bind]; try discriminate.
-           destruct ((NREPS <? mn1)%Z || (NREPS <? mn1)%Z || ((0 <=? mn1)%Z && (mn1 <? mn1)%Z)) eqn:C; intro H; inversion H; subst. unfold wf_rep. lia.
+           match goal with |- (if ?c then _ else _) = _ -> _ => destruct c eqn:C end; intro H; inversion H; subst. unfold wf_rep. lia.
+        -- match goal with |- (if ?c then _ else _) = _ -> _ => destruct c eqn:C end; intro H; inversion H; subst. unfold wf_rep. lia.
       * intro H; inversion H; subst. unfold wf_rep. lia.
     + destruct (hd0 s =? 123)%N eqn:E3.
       * destruct (digits (tl s) 0) as [mn1 s1] eqn:D1.
         pose proof (digits_nonneg (tl s) 0%Z ltac:(lia)) as N1. rewrite D1 in N1. cbn [fst] in N1.
         destruct (hd0 s1 =? 44)%N.
         -- destruct (digits (tl s1) (if (hd0 (tl s1) =? 125)%N then (-1)%Z else 0%Z)) as [mx1 s2].
-           destruct (adv SBrace s2 1) as [s3| |]; cbn [bind]; try discriminate.
-           destruct ((NREPS <? mn1)%Z || (NREPS <? mx1)%Z || ((0 <=? mx1)%Z && (mx1 <? mn1)%Z)) eqn:C; intro H; inversion H; subst. unfold wf_rep. lia.
-        -- destruct (adv SBrace s1 1) as [s3| |]; cbn [bind]; try discriminate.
-           destruct ((NREPS <? mn1)%Z || (NREPS <? mn1)%Z || ((0 <=? mn1)%Z && (mn1 <? mn1)%Z)) eqn:C; intro H; inversion H; subst. unfold wf_rep. lia.
+           match goal with |- (if ?c then _ else _) = _ -> _ => destruct c eqn:C end; intro H; inversion H; subst. unfold wf_rep. lia.
+        -- match goal with |- (if ?c then _ else _) = _ -> _ => destruct c eqn:C end; intro H; inversion H; subst. unfold wf_rep. lia.
       * intro H; inversion H; subst. unfold wf_rep. lia.
 Qed.
 
@@ -141,7 +133,8 @@ Qed.
 (* regcomp: whatever pattern string it accepts, the emitted program fits the reservation *)
 Theorem regcomp_fits pat p : regcomp pat = Ok (Some p) -> (Z.of_nat (length (code p)) <= reserve p)%Z.
 Proof.
-  unfold regcomp, parse_pat. destruct (rnode_parse (parse_fuel pat) pat) as [[[t|] s']| |] eqn:E; cbn [bind fst]; try discriminate.
+  unfold regcomp, parse_pat. destruct (rnode_parse (parse_fuel pat) pat) as [[[t|] s']| |] eqn:E; cbn [bind fst snd]; try discriminate.
+  destruct (parse_bad pat || negb match s' with [] => true | _ :: _ => false end); [discriminate|].
   destruct ((0 <=? NINST)%Z && (NINST <=? count t + 3)%Z) eqn:L; [discriminate|].
   intro H; inversion H; subst; clear H. cbn [code reserve].
   pose proof (rnode_parse_wf _ _ _ _ E) as W.
